@@ -170,7 +170,14 @@ var simValues = []string{"0.1", "0.3", "0.5", "0.7", "0.9"}
 
 func (c *simCase) metricOp(trial, text string) {
 	c.s.metric(trial, text)
-	c.emit(fmt.Sprintf("SIM metric %s %s %s", trial, hx(text), fkeyTok(text)), "ok=1")
+	c.emit(fmt.Sprintf("SIM metric %s %s %s %s", trial, hx(text), fkeyTok(text), hx("acc")), "ok=1")
+}
+
+// noiseOp: the collector also stores a metric nobody asked for, named so that it sorts right before the objective
+func (c *simCase) noiseOp(trial, text string) {
+	c.s.metricNamed(trial, "aab", text)
+	c.emit(fmt.Sprintf("SIM metric %s %s %s %s", trial, hx(text), fkeyTok(text), hx("aab")), "ok=1")
+	c.tags["stored-metric-without-strategy"] = true
 }
 
 func (c *simCase) jobOp(ns, name string, ok bool) {
@@ -186,6 +193,9 @@ func (c *simCase) jobOp(ns, name string, ok bool) {
 func (c *simCase) outcome(g expCfg, t trialsv1beta1.Trial) {
 	switch k := c.rng.Intn(8); {
 	case k == 0:
+		if c.rng.Intn(2) == 0 {
+			c.noiseOp(t.Name, pick(c.rng, simValues))
+		}
 		c.metricOp(t.Name, "unavailable")
 		c.jobOp(t.Namespace, t.Name, true)
 		c.tags["outcome-metrics-unavailable"] = true
@@ -193,7 +203,18 @@ func (c *simCase) outcome(g expCfg, t trialsv1beta1.Trial) {
 		c.jobOp(t.Namespace, t.Name, false)
 		c.tags["outcome-failed"] = true
 	case k == 2 && g.es:
-		if t.IsRunning() {
+		if t.IsRunning() && c.rng.Intn(4) == 0 {
+			// early-stopped, the collector first reports only the marker (the Trial becomes MetricsUnavailable as well), the
+			// objective value arrives later and the still-reconciled early-stopped Trial picks it up
+			c.metricOp(t.Name, "unavailable")
+			r := c.s.earlyStop(t.Namespace, t.Name)
+			c.emit(fmt.Sprintf("SIM earlystop %s %s", t.Namespace, t.Name), "ok="+b01(r))
+			c.jobOp(t.Namespace, t.Name, true)
+			c.recTrial(t.Namespace, t.Name, false, 0)
+			c.metricOp(t.Name, pick(c.rng, simValues))
+			c.recTrial(t.Namespace, t.Name, false, 0)
+			c.tags["outcome-early-stopped-unavailable-then-late-value"] = true
+		} else if t.IsRunning() {
 			if c.rng.Intn(3) != 0 {
 				c.metricOp(t.Name, pick(c.rng, simValues))
 			}
@@ -204,6 +225,9 @@ func (c *simCase) outcome(g expCfg, t trialsv1beta1.Trial) {
 		}
 	case k == 3:
 		// job finishes before its metrics arrive
+		if c.rng.Intn(2) == 0 {
+			c.noiseOp(t.Name, pick(c.rng, simValues))
+		}
 		c.jobOp(t.Namespace, t.Name, true)
 		c.tags["job-before-metrics"] = true
 	case k == 4:
@@ -423,6 +447,23 @@ func runSim(rng *rand.Rand, tier string, k int) Case {
 				c.tags["budget-raised-after-completion"] = true
 				if ri == 1 {
 					c.tags["budget-raised-twice"] = true
+				}
+				if rng.Intn(2) == 0 {
+					// the restart itself meets transient faults: a failing call or an abort inside the restarting reconciles
+					c.tags["faults-during-restart"] = true
+					for j := 1 + rng.Intn(3); j > 0; j-- {
+						f := uint64(1 + rng.Intn(7))
+						a := -1
+						if rng.Intn(4) == 0 {
+							a = rng.Intn(3)
+						}
+						v := c.views(0)
+						out := c.s.recExp(g.ns, g.name, v, f, a)
+						c.emit(fmt.Sprintf("SIM recExp %s %s %d %d %d %d %s", g.ns, g.name, c.s.view[kExp], c.s.view[kTrial], c.s.view[kSug], f, abortTok(a)), out)
+						if rng.Intn(2) == 0 {
+							c.recSug(g, true, 0)
+						}
+					}
 				}
 				c.settle(g, 40)
 				c.emit(fmt.Sprintf("SIM quiesce-begin %s %s", g.ns, g.name), "ok=1")
